@@ -3,24 +3,39 @@ C11  Running an accepted query never crashes or hangs, whatever the input.
 
 The model marks every place where the Rust code could panic with an explicit `panic` outcome.
 After the repairs recorded in known_findings.json (checked i64 arithmetic, checked chrono
-arithmetic, exact from_float, rejected empty split separator, consistent sort comparator) the
-theorems below show that no such outcome is reachable from the evaluator and the row operators:
+arithmetic, exact from_float, rejected empty split separator, `unsigned_abs` for a negative
+limit, consistent sort comparator) the theorems below show that no such outcome is reachable
+from the evaluator, the row operators and the reader loop:
 
 * `C11_arith_no_panic`      — `+ - * /` on any two values return a value or an `EvalError`;
 * `C11_eval_no_panic`       — expression evaluation never panics, for every expression, record and
-                              every behaviour of the external functions;
+                              every behaviour of the external functions (`Ext`);
 * `C11_row_op_no_panic`     — every compiled stateless row operator returns a row, a drop or an
                               `EvalError` (split: because an accepted separator is non-empty);
-* `C11_step_no_panic`       — the same for the stateful ones (limit, total);
+* `C11_step_no_panic`       — the same for the stateful ones (limit, total) in their own states;
+* `C11_procPreagg_no_panic`, `C11_feed_no_panic`, `C11_drainLoop_no_panic`, `C11_runPre_no_panic`,
+  `C11_adaptTable_no_panic` — one record / all records / the end-of-input drain / the whole reader
+                              side / a row operator after an aggregation: no panic, the operator
+                              states stay admissible (`StatesOK`);
+* `typecheck_sepOK`, `compile_planOK`, `C11_compiled_runPre_no_panic` — the separator hypothesis
+                              holds for everything `Pipeline::new` accepts, so the reader side of an
+                              accepted query is panic-free unconditionally;
+* `C11_typecheck_no_panic_limit`, `C11_typecheck_inline_no_panic`, `C11_typecheck_agg_panic_iff`
+                            — the type checker: no inline operator panics (limit included, after
+                              repo commit 68d8770); an aggregate function panics exactly for the
+                              parser's error node and for a percentile level ≥ 1;
 * `C11_row_isolation`       — a row an operator rejects does not change the result for the others
                               (from C12: the per-line function has no hidden state);
 * termination: every model function is a total Lean function (structural recursion, or fuel that
   is proved sufficient where it matters: `C07_split_compiled_terminates`).
 
 Not covered by a theorem (exploration only): panic-freedom of external crates (regex, serde_json,
-dtparse, strfmt), allocation failure, and the printers (C19 has its own no-panic theorem).
+dtparse, strfmt), allocation failure, the aggregation stages (`applyStage .group` turns an
+`EvalError` of `processRow`/`emit` into the model's panic marker — see C04/C09), and the printers
+(C19 has its own no-panic theorem).
 -/
 import AgModel.Pipeline
+import AgProofs.Lemmas.Basic
 import AgProofs.Props.C07
 import AgProofs.Props.C12
 
@@ -32,6 +47,9 @@ theorem noPanic_ok {α} (a : α) : NoPanic (Outcome.ok a) := by intro p; simp
 theorem noPanic_err {α} (k : String) : NoPanic (Outcome.err k : Outcome α) := by intro p; simp
 theorem noPanic_unmodelled {α} (k : String) : NoPanic (Outcome.unmodelled k : Outcome α) := by
   intro p; simp
+theorem noPanic_pure {α} (a : α) : NoPanic (pure a : Outcome α) := noPanic_ok a
+theorem not_noPanic_panic {α} (p : String) : NoPanic (Outcome.panic p : Outcome α) → False :=
+  fun h => h p rfl
 
 theorem noPanic_bind {α β} (x : Outcome α) (f : α → Outcome β) (hx : NoPanic x)
     (hf : ∀ a, NoPanic (f a)) : NoPanic (x >>= f) := by
@@ -41,33 +59,39 @@ theorem noPanic_bind {α β} (x : Outcome α) (f : α → Outcome β) (hx : NoPa
   | panic p => exact absurd rfl (hx p)
   | unmodelled w => exact noPanic_unmodelled w
 
-/-- close goals `NoPanic (if … then c₁ else c₂)` / matches whose leaves are constructors -/
+/-- close a goal `NoPanic leaf` where `leaf` is a non-panic constructor or a hypothesis -/
+macro "np_leaf" : tactic =>
+  `(tactic| with_reducible first
+    | exact noPanic_ok _ | exact noPanic_err _ | exact noPanic_unmodelled _ | exact noPanic_pure _
+    | assumption
+    | (exfalso; exact not_noPanic_panic _ (by assumption)))
+
+/-- `if`/`match` trees whose leaves are constructors -/
 macro "leaves" : tactic =>
-  `(tactic| (intro p; dsimp only; (repeat' split) <;> simp_all))
+  `(tactic| ((first | dsimp only | skip); repeat' (first | np_leaf | split)))
 
 /-! ### values -/
 
 theorem aggressivelyToNum_noPanic (s : String) : NoPanic (Value.aggressivelyToNum s) := by
   unfold Value.aggressivelyToNum
   generalize Value.fromString s = v
-  cases v <;> try (intro p; simp)
+  cases v <;> try (intro p; simp; done)
   all_goals
+    dsimp only
     split
     · intro p; simp
     · generalize Value.fromString _ = w
       cases w <;> (intro p; simp)
 
 theorem toF64_noPanic (v : Value) : NoPanic v.toF64 := by
-  cases v <;> try (intro p; simp [Value.toF64])
-  exact aggressivelyToNum_noPanic _
+  cases v <;> first | exact aggressivelyToNum_noPanic _ | (intro p; simp [Value.toF64])
+
+theorem toF64Agg_noPanic (v : Value) : NoPanic v.toF64Agg := by
+  cases v <;> first | exact aggressivelyToNum_noPanic _ | (intro p; simp [Value.toF64Agg])
 
 theorem binaryOp_noPanic (op : F64 → F64 → F64) (l r : Value) : NoPanic (Value.binaryOp op l r) := by
   unfold Value.binaryOp
-  have hl := toF64_noPanic l
-  have hr := toF64_noPanic r
-  generalize l.toF64 = a at hl
-  generalize r.toF64 = b at hr
-  cases a <;> cases b <;> first | (intro p; simp) | exact absurd rfl (hl _) | exact absurd rfl (hr _)
+  leaves
 
 theorem mkDur_noPanic (s : String) (n : Int) : NoPanic (Value.mkDur s n) := by
   unfold Value.mkDur; leaves
@@ -93,22 +117,20 @@ theorem C11_arith_no_panic (a b : Value) :
   · unfold Value.div
     split <;> first | exact durDiv_noPanic _ _ | exact binaryOp_noPanic _ _ _
 
-/-! ### functions -/
-
 theorem display_noPanic (v : Value) : NoPanic v.display := by
   cases v <;> (intro p; simp [Value.display])
 
 theorem toUsize_noPanic (v : Value) : NoPanic v.toUsize := by
-  cases v <;> try (unfold Value.toUsize; leaves)
+  cases v <;> try (unfold Value.toUsize; leaves; done)
   rename_i s
-  unfold Value.toUsize
-  have := aggressivelyToNum_noPanic s
-  generalize Value.aggressivelyToNum s = a at this
-  cases a
+  simp only [Value.toUsize]
+  split
   · leaves
-  · intro p; simp
-  · exact absurd rfl (this _)
-  · intro p; simp
+  · np_leaf
+  · rename_i h; exact absurd h (aggressivelyToNum_noPanic s _)
+  · np_leaf
+
+/-! ### functions -/
 
 theorem mapM_noPanic {α β} (f : α → Outcome β) (hf : ∀ a, NoPanic (f a)) :
     ∀ l : List α, NoPanic (l.mapM f)
@@ -120,34 +142,37 @@ theorem mapM_noPanic {α β} (f : α → Outcome β) (hf : ∀ a, NoPanic (f a))
 
 theorem invalidArgs_noPanic : NoPanic invalidArgs := noPanic_err _
 
+/-- `do` blocks / `if` / `match` trees over the value coercions -/
+macro "np_val" : tactic =>
+  `(tactic| ((first | dsimp only | skip); repeat' (first
+    | np_leaf
+    | with_reducible first
+      | exact invalidArgs_noPanic
+      | exact toF64_noPanic _ | exact toF64Agg_noPanic _ | exact toUsize_noPanic _
+      | exact display_noPanic _ | exact aggressivelyToNum_noPanic _
+      | exact mapM_noPanic _ display_noPanic _
+      | refine noPanic_bind _ _ ?_ (fun _ => ?_)
+    | split)))
+
 theorem generic_noPanic (n : String) (args : List Value) : NoPanic (generic n args) := by
   unfold generic
   split
-  · exact noPanic_bind _ _ (mapM_noPanic _ display_noPanic _) (fun _ => noPanic_ok _)
-  · split
-    · exact noPanic_ok _
-    · exact noPanic_ok _
-    · exact noPanic_bind _ _ (display_noPanic _) (fun _ => noPanic_ok _)
-    · exact invalidArgs_noPanic
-  · split
-    · refine noPanic_bind _ _ (display_noPanic _) (fun _ => ?_)
-      refine noPanic_bind _ _ (toUsize_noPanic _) (fun _ => ?_)
-      refine noPanic_bind _ _ (toUsize_noPanic _) (fun _ => ?_)
-      leaves
-    · refine noPanic_bind _ _ (display_noPanic _) (fun _ => ?_)
-      exact noPanic_bind _ _ (toUsize_noPanic _) (fun _ => noPanic_ok _)
-    · exact invalidArgs_noPanic
-  · leaves
-  · leaves
-  · leaves
+  · np_val
+  · np_val
+  · np_val
+  · np_val
+  · np_val
+  · np_val
   · split
     · rename_i a
-      have := toF64_noPanic a
-      generalize a.toF64 = x at this
-      cases x <;> first | (intro p; simp) | exact absurd rfl (this _)
+      split
+      · np_leaf
+      · np_leaf
+      · rename_i h; exact absurd h (toF64_noPanic a _)
+      · np_leaf
     · exact invalidArgs_noPanic
-  · leaves
-  · exact noPanic_err _
+  · np_val
+  · np_val
 
 theorem string1_noPanic (ext : Ext) (n s : String) : NoPanic (string1 ext n s) := by
   unfold string1
@@ -157,44 +182,26 @@ theorem evalFunc_noPanic (ext : Ext) (n : String) (args : List Value) :
     NoPanic (evalFunc ext n args) := by
   unfold evalFunc
   split
+  · np_val
+  split
+  · np_val
+  split
   · split
-    · exact noPanic_bind _ _ (toF64_noPanic _) (fun _ => noPanic_ok _)
+    · exact noPanic_bind _ _ (display_noPanic _) (fun _ => string1_noPanic _ _ _)
     · exact invalidArgs_noPanic
-  · split
-    · split
-      · refine noPanic_bind _ _ (toF64_noPanic _) (fun _ => ?_)
-        exact noPanic_bind _ _ (toF64_noPanic _) (fun _ => noPanic_ok _)
-      · exact invalidArgs_noPanic
-    · split
-      · split
-        · exact noPanic_bind _ _ (display_noPanic _) (fun _ => string1_noPanic _ _ _)
-        · exact invalidArgs_noPanic
-      · split
-        · split
-          · refine noPanic_bind _ _ (display_noPanic _) (fun _ => ?_)
-            exact noPanic_bind _ _ (display_noPanic _) (fun _ => noPanic_ok _)
-          · exact invalidArgs_noPanic
-        · exact generic_noPanic _ _
+  split
+  · np_val
+  exact generic_noPanic _ _
 
 theorem access_noPanic : ∀ (path : List Ref) (v : Value), NoPanic (access v path)
   | [], v => noPanic_ok _
   | .field k :: rest, v => by
     unfold access
-    split
-    · split
-      · exact access_noPanic rest _
-      · exact noPanic_err _
-    · exact noPanic_err _
+    repeat' (first | np_leaf | exact access_noPanic rest _ | split)
   | .idx i :: rest, v => by
     unfold access
-    split
-    · dsimp only
-      split
-      · exact noPanic_err _
-      · split
-        · exact access_noPanic rest _
-        · exact noPanic_err _
-    · exact noPanic_err _
+    dsimp only
+    repeat' (first | np_leaf | exact access_noPanic rest _ | split)
 
 /-! ### expressions -/
 
@@ -232,13 +239,11 @@ theorem C11_eval_no_panic (ext : Ext) (r : Fields) : ∀ e : Expr, NoPanic (eval
     unfold evalValue
     split
     · split
-      · rename_i lv _ rv _
-        have := C11_arith_no_panic lv rv
-        cases op
-        · exact this.1
-        · exact this.2.1
-        · exact this.2.2.1
-        · exact this.2.2.2
+      · cases op
+        · exact (C11_arith_no_panic _ _).1
+        · exact (C11_arith_no_panic _ _).2.1
+        · exact (C11_arith_no_panic _ _).2.2.1
+        · exact (C11_arith_no_panic _ _).2.2.2
       · exact h2
     · exact h1
   | .logic op l rr => by
@@ -304,9 +309,7 @@ theorem evalF64_noPanic (ext : Ext) (r : Fields) (e : Expr) : NoPanic (evalF64 e
   have := C11_eval_no_panic ext r e
   unfold evalF64
   split
-  · rename_i v _
-    cases v <;> try (intro p; simp [Value.toF64Agg])
-    exact aggressivelyToNum_noPanic _
+  · exact toF64Agg_noPanic _
   · exact noPanic_err _
   · rename_i p hp; exact absurd hp (this p)
   · exact noPanic_unmodelled _
@@ -327,6 +330,533 @@ theorem getInput_noPanic (ext : Ext) (rec : Record) (src : Option Expr) :
   cases src with
   | none => exact noPanic_ok _
   | some e => exact evalStr_noPanic ext rec.data e
+
+/-! ### row operators -/
+
+theorem putPath_noPanic (newv : Value) : ∀ (path : List Ref) (v : Value), NoPanic (putPath v path newv)
+  | [], v => by unfold putPath; exact noPanic_ok _
+  | .field k :: rest, v => by
+    have := putPath_noPanic newv rest
+    unfold putPath
+    repeat' (first | np_leaf | exact this _ | split)
+  | .idx i :: rest, v => by
+    have := putPath_noPanic newv rest
+    unfold putPath
+    dsimp only
+    repeat' (first | np_leaf | exact this _ | split)
+
+theorem putExpr_noPanic (data : Fields) (key : Expr) (newv : Value) :
+    NoPanic (putExpr data key newv) := by
+  unfold putExpr
+  split
+  · split
+    · leaves
+    · split
+      · np_leaf
+      · np_leaf
+      · rename_i h; exact absurd h (putPath_noPanic newv _ _ _)
+      · np_leaf
+  · np_leaf
+
+theorem durationTrunc_noPanic (stamp span : Int) : NoPanic (durationTrunc stamp span) := by
+  unfold durationTrunc; leaves
+
+theorem split_isSome (inp sep : List Char) (hsep : sep ≠ []) : Split.split inp sep ≠ none := by
+  have := Ag.Split.splitLoop_isSome sep hsep (inp.length + 1) inp [] (by omega)
+  unfold Split.split
+  intro h; rw [h] at this; simp at this
+
+/-- the hypothesis under which a row operator is one the type checker produces, as far as
+panic-freedom is concerned: a `split` has a non-empty separator (`C07_split_compiled_terminates`) -/
+def SepOK (op : RowOp) : Prop := ∀ sep src dst, op = .split sep src dst → sep.toList ≠ []
+
+/-- **C11 (stateless row operators).** Every stateless row operator the type checker can produce
+maps a record to a row, a drop, an `EvalError` or `unmodelled` — never a panic. -/
+theorem C11_row_op_no_panic (ext : Ext) (op : RowOp) (rec : Record)
+    (hst : op.isStateless = true)
+    (hsep : ∀ sep src dst, op = .split sep src dst → sep.toList ≠ []) :
+    NoPanic (applyStateless ext op rec) := by
+  cases op with
+  | json src =>
+    unfold applyStateless
+    refine noPanic_bind _ _ (getInput_noPanic ext rec src) (fun inp => ?_)
+    leaves
+  | logfmt src =>
+    unfold applyStateless
+    refine noPanic_bind _ _ (getInput_noPanic ext rec src) (fun inp => ?_)
+    leaves
+  | parse pat fields src drop noConvert =>
+    unfold applyStateless
+    refine noPanic_bind _ _ (getInput_noPanic ext rec src) (fun inp => ?_)
+    leaves
+  | fields mode names => unfold applyStateless; leaves
+  | whereE e =>
+    unfold applyStateless
+    exact noPanic_bind _ _ (evalBool_noPanic ext rec.data e) (fun _ => noPanic_ok _)
+  | whereConst b => unfold applyStateless; np_leaf
+  | fieldExpr e name =>
+    unfold applyStateless
+    exact noPanic_bind _ _ (C11_eval_no_panic ext rec.data e) (fun _ => noPanic_ok _)
+  | split sep src dst =>
+    have hs : sep.toList ≠ [] := hsep sep src dst rfl
+    unfold applyStateless
+    refine noPanic_bind _ _ (getInput_noPanic ext rec src) (fun inp => ?_)
+    split
+    · rename_i h; exact absurd h (split_isSome _ _ hs)
+    · dsimp only
+      split
+      · exact noPanic_bind _ _ (putExpr_noPanic _ _ _) (fun _ => noPanic_ok _)
+      · np_leaf
+  | timeslice src dur dst =>
+    unfold applyStateless
+    refine noPanic_bind _ _ (C11_eval_no_panic ext rec.data src) (fun v => ?_)
+    split
+    · exact noPanic_bind _ _ (durationTrunc_noPanic _ _) (fun _ => noPanic_ok _)
+    · np_leaf
+  | limit n => simp [RowOp.isStateless] at hst
+  | total src dst => simp [RowOp.isStateless] at hst
+
+/-! ### stateful row operators -/
+
+/-- the states an operator can be in: `limit` counts (`head`) or buffers (`tail`), `total` holds its
+running sum; the stateless operators ignore their state -/
+def StateOK (op : RowOp) (st : OpState) : Prop :=
+  match op with
+  | .limit _ => (∃ i, st = .head i) ∨ (∃ q, st = .tail q)
+  | .total .. => ∃ acc, st = .total acc
+  | _ => True
+
+theorem init_stateOK (op : RowOp) : StateOK op op.init := by
+  cases op <;> simp only [StateOK, RowOp.init]
+  · split
+    · exact Or.inl ⟨_, rfl⟩
+    · exact Or.inr ⟨_, rfl⟩
+  · exact ⟨_, rfl⟩
+
+theorem step_limit_noPanic (ext : Ext) (n : Int) (st : OpState) (rec : Record)
+    (h : StateOK (.limit n) st) : NoPanic (stepOp ext (.limit n) st rec).2 := by
+  rcases h with ⟨i, rfl⟩ | ⟨q, rfl⟩ <;> (simp only [stepOp]; np_leaf)
+
+theorem step_total_noPanic (ext : Ext) (src : Expr) (dst : String) (acc : F64) (rec : Record) :
+    NoPanic (stepOp ext (.total src dst) (.total acc) rec).2 := by
+  simp only [stepOp]
+  split <;> np_leaf
+
+theorem step_stateless_eq (ext : Ext) (op : RowOp) (st : OpState) (rec : Record)
+    (hst : op.isStateless = true) : stepOp ext op st rec = (st, applyStateless ext op rec) := by
+  cases op <;> first | rfl | simp [RowOp.isStateless] at hst
+
+/-- one step of any operator from an admissible state never panics -/
+theorem step_noPanic (ext : Ext) (op : RowOp) (st : OpState) (rec : Record)
+    (hok : StateOK op st) (hsep : SepOK op) : NoPanic (stepOp ext op st rec).2 := by
+  by_cases hst : op.isStateless = true
+  · rw [step_stateless_eq ext op st rec hst]
+    exact C11_row_op_no_panic ext op rec hst hsep
+  · cases op <;> first | (exfalso; exact hst rfl) | skip
+    · exact step_limit_noPanic ext _ st rec hok
+    · obtain ⟨acc, rfl⟩ := hok
+      exact step_total_noPanic ext _ _ acc rec
+
+/-- … and leaves the operator in an admissible state -/
+theorem step_stateOK (ext : Ext) (op : RowOp) (st : OpState) (rec : Record)
+    (hok : StateOK op st) : StateOK op (stepOp ext op st rec).1 := by
+  by_cases hst : op.isStateless = true
+  · rw [step_stateless_eq ext op st rec hst]; exact hok
+  · cases op <;> first | (exfalso; exact hst rfl) | skip
+    · rcases hok with ⟨i, rfl⟩ | ⟨q, rfl⟩
+      · exact Or.inl ⟨_, rfl⟩
+      · exact Or.inr ⟨_, rfl⟩
+    · obtain ⟨acc, rfl⟩ := hok
+      simp only [stepOp]
+      split <;> exact ⟨_, rfl⟩
+
+/-- **C11 (stateful row operators).** `limit` (counting or buffering) and `total` (with its running
+sum) never panic on any record; a stateless operator never panics whatever state it is paired with. -/
+theorem C11_step_no_panic (ext : Ext) (rec : Record) :
+    (∀ n idx, NoPanic (stepOp ext (.limit n) (.head idx) rec).2) ∧
+    (∀ n q, NoPanic (stepOp ext (.limit n) (.tail q) rec).2) ∧
+    (∀ src dst acc, NoPanic (stepOp ext (.total src dst) (.total acc) rec).2) ∧
+    (∀ op st, op.isStateless = true →
+      (∀ sep src dst, op = .split sep src dst → sep.toList ≠ []) →
+      NoPanic (stepOp ext op st rec).2) := by
+  refine ⟨fun n idx => ?_, fun n q => ?_, fun src dst acc => ?_, fun op st hst hsep => ?_⟩
+  · exact step_limit_noPanic ext n _ rec (Or.inl ⟨_, rfl⟩)
+  · exact step_limit_noPanic ext n _ rec (Or.inr ⟨_, rfl⟩)
+  · exact step_total_noPanic ext src dst acc rec
+  · rw [step_stateless_eq ext op st rec hst]
+    exact C11_row_op_no_panic ext op rec hst hsep
+
+/-- the state hypothesis is needed: a stateful operator paired with a foreign state is the model's
+"length/kind mismatch" panic (unreachable: `Pipeline::new` builds the states from the operators) -/
+theorem step_limit_stateless_panics (ext : Ext) (n : Int) (rec : Record) :
+    ¬ NoPanic (stepOp ext (.limit n) .stateless rec).2 := by
+  intro h; exact h _ rfl
+
+/-! ### the type checker -/
+
+/-- **C11 (limit).** In the current model (after repo commit 68d8770: `unsigned_abs` and a capped
+`VecDeque` capacity) type-checking `limit` has no panic branch at all: every limit literal is either
+accepted or rejected with `InvalidLimit`. -/
+theorem C11_typecheck_no_panic_limit (f : Option F64) :
+    ∀ p, typecheckInline (.limit f) ≠ .panic p := by
+  intro p
+  cases f with
+  | none => simp [typecheckInline]
+  | some f => simp only [typecheckInline]; split <;> simp
+
+/-- exactly what `limit f` type-checks to -/
+theorem typecheck_limit_some (f : F64) :
+    typecheckInline (.limit (some f)) =
+      if F64.feq (F64.trunc f) F64.zero || F64.fractNonzero f then .typeError "InvalidLimit"
+      else .ok (.limit (F64.toI64 f)) := by
+  simp only [typecheckInline]
+
+/-- no inline operator makes the type checker panic -/
+theorem C11_typecheck_inline_no_panic (i : Inline) : ∀ p, typecheckInline i ≠ .panic p := by
+  intro p
+  cases i with
+  | limit f => exact C11_typecheck_no_panic_limit f p
+  | whereOp e =>
+    cases e with
+    | none => simp [typecheckInline]
+    | some e => simp only [typecheckInline]; repeat' (first | (simp; done) | split)
+  | timeslice src d dst =>
+    cases d <;> (simp only [typecheckInline]; repeat' (first | (simp; done) | split))
+  | _ => simp only [typecheckInline]; repeat' (first | (simp; done) | split)
+
+/-- **C11 (aggregate functions).** `typecheckAgg` panics exactly for the parser's error node and
+for a well-typed percentile whose level is not below 1 (`p100`/`pct100` and above). -/
+theorem C11_typecheck_agg_panic_iff (f : AggFn) :
+    (∃ p, typecheckAgg f = .panic p) ↔
+      f = .error ∨ ∃ pc s e, f = .pct pc s e ∧ e.wellTyped = true ∧ F64.le (F64.ofInt 1) pc = true := by
+  cases f with
+  | pct pc s e =>
+    simp only [typecheckAgg]
+    by_cases hw : e.wellTyped = true
+    · by_cases hp : F64.le (F64.ofInt 1) pc = true
+      · simp only [hw, hp]
+        exact ⟨fun _ => Or.inr ⟨_, _, _, rfl, hw, hp⟩, fun _ => ⟨_, rfl⟩⟩
+      · simp [hw, hp]
+    · simp [hw]
+  | error => simp [typecheckAgg]
+  | countDistinct a =>
+    constructor
+    · rintro ⟨p, hp⟩
+      rcases a with _ | (_ | ⟨e, _ | _⟩) <;> simp only [typecheckAgg] at hp <;>
+        first | cases hp | (split at hp <;> cases hp)
+    · simp
+  | _ =>
+    simp only [typecheckAgg]
+    constructor
+    · rintro ⟨p, hp⟩; split at hp <;> cases hp
+    · simp
+
+/-! ### the reader loop -/
+
+def RunNoPanic {α} (x : RunR α) : Prop := ∀ p, x ≠ .panic p
+
+theorem runNoPanic_ok {α} (a : α) : RunNoPanic (RunR.ok a) := fun _ h => by cases h
+theorem runNoPanic_unmodelled {α} (w : String) : RunNoPanic (RunR.unmodelled w : RunR α) :=
+  fun _ h => by cases h
+
+/-- every operator has a state, and an admissible one -/
+def StatesOK : List RowOp → List OpState → Prop
+  | [], _ => True
+  | _ :: _, [] => False
+  | op :: ops, st :: sts => StateOK op st ∧ StatesOK ops sts
+
+def OpsOK (ops : List RowOp) : Prop := ∀ op ∈ ops, SepOK op
+
+theorem init_statesOK : ∀ ops : List RowOp, StatesOK ops (ops.map RowOp.init)
+  | [] => trivial
+  | op :: ops => ⟨init_stateOK op, init_statesOK ops⟩
+
+theorem OpsOK.tail {op : RowOp} {ops : List RowOp} (h : OpsOK (op :: ops)) : OpsOK ops :=
+  fun o ho => h o (List.mem_cons_of_mem _ ho)
+
+/-- `proc_preagg` on admissible states: no panic, and the new states are admissible again -/
+theorem procPreagg_ok (ext : Ext) : ∀ (ops : List RowOp) (sts : List OpState) (rec : Record),
+    OpsOK ops → StatesOK ops sts →
+    RunNoPanic (procPreagg ext ops sts rec) ∧
+      ∀ sts' out e, procPreagg ext ops sts rec = .ok (sts', out, e) → StatesOK ops sts'
+  | [], sts, rec, _, _ => by
+    simp only [procPreagg]
+    exact ⟨runNoPanic_ok _, fun _ _ _ _ => trivial⟩
+  | op :: ops, [], rec, _, hs => hs.elim
+  | op :: ops, st :: sts, rec, ho, hs => by
+    have hnp := step_noPanic ext op st rec hs.1 (ho op (List.mem_cons_self ..))
+    have hst := step_stateOK ext op st rec hs.1
+    simp only [procPreagg]
+    generalize stepOp ext op st rec = res at hnp hst
+    obtain ⟨st', o⟩ := res
+    cases o with
+    | ok r =>
+      cases r with
+      | none =>
+        refine ⟨runNoPanic_ok _, fun sts' out e h => ?_⟩
+        simp only [RunR.ok.injEq, Prod.mk.injEq] at h
+        obtain ⟨rfl, _, _⟩ := h
+        exact ⟨hst, hs.2⟩
+      | some r' =>
+        have ih := procPreagg_ok ext ops sts r' ho.tail hs.2
+        dsimp only
+        generalize procPreagg ext ops sts r' = inner at ih
+        cases inner with
+        | ok t =>
+          obtain ⟨sts1, out1, e1⟩ := t
+          refine ⟨runNoPanic_ok _, fun sts' out e h => ?_⟩
+          simp only [RunR.ok.injEq, Prod.mk.injEq] at h
+          obtain ⟨rfl, _, _⟩ := h
+          exact ⟨hst, ih.2 _ _ _ rfl⟩
+        | panic p => exact absurd rfl (ih.1 p)
+        | unmodelled w => exact ⟨runNoPanic_unmodelled _, fun _ _ _ h => nomatch h⟩
+    | err k =>
+      refine ⟨runNoPanic_ok _, fun sts' out e h => ?_⟩
+      simp only [RunR.ok.injEq, Prod.mk.injEq] at h
+      obtain ⟨rfl, _, _⟩ := h
+      exact ⟨hst, hs.2⟩
+    | panic p => exact absurd rfl (hnp p)
+    | unmodelled w => exact ⟨runNoPanic_unmodelled _, fun _ _ _ h => nomatch h⟩
+
+/-- **C11 (one record through the operators).** -/
+theorem C11_procPreagg_no_panic (ext : Ext) (ops : List RowOp) (sts : List OpState) (rec : Record)
+    (ho : ∀ op ∈ ops, ∀ sep src dst, op = .split sep src dst → sep.toList ≠ [])
+    (hs : StatesOK ops sts) : ∀ p, procPreagg ext ops sts rec ≠ .panic p :=
+  (procPreagg_ok ext ops sts rec ho hs).1
+
+theorem feed_ok (ext : Ext) (ops : List RowOp) (ho : OpsOK ops) :
+    ∀ (rows : List Record) (sts : List OpState) (acc : List Record) (e : Nat), StatesOK ops sts →
+    RunNoPanic (feed ext ops sts rows acc e) ∧
+      ∀ sts' outs e', feed ext ops sts rows acc e = .ok (sts', outs, e') → StatesOK ops sts'
+  | [], sts, acc, e, hs => by
+    simp only [feed]
+    refine ⟨runNoPanic_ok _, fun sts' outs e' h => ?_⟩
+    simp only [RunR.ok.injEq, Prod.mk.injEq] at h
+    obtain ⟨rfl, _, _⟩ := h
+    exact hs
+  | r :: rs, sts, acc, e, hs => by
+    have h1 := procPreagg_ok ext ops sts r ho hs
+    simp only [feed]
+    generalize procPreagg ext ops sts r = res at h1
+    cases res with
+    | ok t =>
+      obtain ⟨sts1, out1, e1⟩ := t
+      have hs1 := h1.2 _ _ _ rfl
+      cases out1 with
+      | none => exact feed_ok ext ops ho rs sts1 acc (e + e1) hs1
+      | some o => exact feed_ok ext ops ho rs sts1 (o :: acc) (e + e1) hs1
+    | panic p => exact absurd rfl (h1.1 p)
+    | unmodelled w => exact ⟨runNoPanic_unmodelled _, fun _ _ _ h => nomatch h⟩
+
+theorem C11_feed_no_panic (ext : Ext) (ops : List RowOp) (sts : List OpState) (rows acc : List Record)
+    (e : Nat) (ho : ∀ op ∈ ops, ∀ sep src dst, op = .split sep src dst → sep.toList ≠ [])
+    (hs : StatesOK ops sts) : ∀ p, feed ext ops sts rows acc e ≠ .panic p :=
+  (feed_ok ext ops ho rows sts acc e hs).1
+
+theorem C11_drainLoop_no_panic (ext : Ext) : ∀ (ops : List RowOp) (sts : List OpState)
+    (acc : List Record) (e : Nat),
+    (∀ op ∈ ops, ∀ sep src dst, op = .split sep src dst → sep.toList ≠ []) → StatesOK ops sts →
+    ∀ p, drainLoop ext ops sts acc e ≠ .panic p
+  | [], sts, acc, e, _, _ => by intro p h; simp [drainLoop] at h
+  | _ :: _, [], acc, e, _, hs => hs.elim
+  | op :: ops, st :: sts, acc, e, ho, hs => by
+    have ho' : OpsOK ops := OpsOK.tail ho
+    have h1 := feed_ok ext ops ho' (drainOp st) sts [] 0 hs.2
+    simp only [drainLoop]
+    generalize feed ext ops sts (drainOp st) [] 0 = res at h1
+    cases res with
+    | ok t =>
+      obtain ⟨sts1, outs, e1⟩ := t
+      exact C11_drainLoop_no_panic ext ops sts1 (acc ++ outs) (e + e1) ho' (h1.2 _ _ _ rfl)
+    | panic p => exact absurd rfl (h1.1 p)
+    | unmodelled w => intro p h; cases h
+
+/-- **C11 (reader side).** The whole reader side of `process()` — filter, `proc_preagg` on every line,
+end-of-input drain — never panics for a plan whose `split`s have non-empty separators. -/
+theorem C11_runPre_no_panic (ext : Ext) (pl : Plan) (lines : List String)
+    (ho : ∀ op ∈ pl.pre, ∀ sep src dst, op = .split sep src dst → sep.toList ≠ []) :
+    ∀ p, runPre ext pl lines ≠ .panic p := by
+  intro p
+  simp only [runPre]
+  split
+  · simp
+  · have h1 := feed_ok ext pl.pre ho
+      (List.map (fun l => ({ data := [], raw := l } : Record))
+        (lines.filter fun l => Search.sem pl.filter l.toList))
+      (pl.pre.map RowOp.init) [] 0 (init_statesOK _)
+    generalize feed ext pl.pre _ _ [] 0 = res at h1
+    cases res with
+    | ok t =>
+      obtain ⟨sts1, outs, e1⟩ := t
+      have h2 := C11_drainLoop_no_panic ext pl.pre sts1 [] 0 ho (h1.2 _ _ _ rfl)
+      dsimp only
+      generalize drainLoop ext pl.pre sts1 [] 0 = r2 at h2
+      cases r2 with
+      | ok u => simp
+      | panic q => exact absurd rfl (h2 q)
+      | unmodelled w => simp
+    | panic q => exact absurd rfl (h1.1 q)
+    | unmodelled w => simp
+
+/-! ### compiled plans satisfy the hypothesis -/
+
+/-- whatever the type checker accepts satisfies the separator hypothesis of the theorems above -/
+theorem typecheck_sepOK (i : Inline) (op : RowOp) (h : typecheckInline i = .ok op) : SepOK op := by
+  intro sep src dst heq
+  subst heq
+  cases i with
+  | split sep' src' dst' =>
+    obtain ⟨h1, h2, _⟩ := C07.C07_split_compiled_terminates sep' src' dst' _ h
+    cases h1; exact h2
+  | whereOp e =>
+    cases e with
+    | none => simp [typecheckInline] at h
+    | some e =>
+      simp only [typecheckInline] at h
+      repeat' (first | (simp at h; done) | split at h)
+  | limit f =>
+    cases f with
+    | none => simp [typecheckInline] at h
+    | some f => simp only [typecheckInline] at h; split at h <;> simp at h
+  | timeslice s d t =>
+    cases d <;> (simp only [typecheckInline] at h; repeat' (first | (simp at h; done) | split at h))
+  | _ => simp only [typecheckInline] at h; repeat' (first | (simp at h; done) | split at h)
+
+/-- every row operator of a plan, before and after the aggregation, has the separator property -/
+def PlanOK (p : Plan) : Prop := OpsOK p.pre ∧ ∀ op, AggStage.adapt op ∈ p.post → SepOK op
+
+theorem planLoop_planOK : ∀ (ops : List Operator) (inAgg hasErr : Bool) (pre : List RowOp)
+    (post : List AggStage) (p : Plan),
+    OpsOK pre → (∀ op, AggStage.adapt op ∈ post → SepOK op) →
+    planLoop inAgg hasErr pre post ops = .ok p → PlanOK p
+  | [], inAgg, hasErr, pre, post, p, h1, h2, h => by
+    simp only [planLoop] at h
+    split at h
+    · cases h
+    · cases h
+      exact ⟨fun o ho => h1 o (by simpa using ho), fun o ho => h2 o (by simpa using ho)⟩
+  | .error :: rest, inAgg, hasErr, pre, post, p, h1, h2, h => by
+    simp only [planLoop] at h
+    exact planLoop_planOK rest _ _ _ _ p h1 h2 h
+  | .alias _ :: rest, inAgg, hasErr, pre, post, p, h1, h2, h => by
+    simp only [planLoop] at h
+    exact planLoop_planOK rest _ _ _ _ p h1 h2 h
+  | .inline i :: rest, inAgg, hasErr, pre, post, p, h1, h2, h => by
+    simp only [planLoop] at h
+    cases ht : typecheckInline i with
+    | ok o =>
+      have hso := typecheck_sepOK i o ht
+      simp only [ht] at h
+      split at h
+      · refine planLoop_planOK rest _ _ _ _ p (fun o' ho' => ?_) h2 h
+        rcases List.mem_cons.mp ho' with rfl | hm
+        · exact hso
+        · exact h1 _ hm
+      · refine planLoop_planOK rest _ _ _ _ p h1 (fun o' ho' => ?_) h
+        rcases List.mem_cons.mp ho' with he | hm
+        · cases he; exact hso
+        · exact h2 _ hm
+    | typeError k => simp [ht] at h
+    | panic s => simp [ht] at h
+    | unmodelled w => simp [ht] at h
+  | .agg m :: rest, inAgg, hasErr, pre, post, p, h1, h2, h => by
+    simp only [planLoop] at h
+    cases hc : convertMultiAgg m with
+    | ok g =>
+      simp only [hc] at h
+      split at h
+      · refine planLoop_planOK rest _ _ _ _ p h1 (fun o' ho' => ?_) h
+        simp only [List.mem_cons, reduceCtorEq, false_or] at ho'
+        exact h2 _ ho'
+      · refine planLoop_planOK rest _ _ _ _ p h1 (fun o' ho' => ?_) h
+        simp only [List.mem_cons, reduceCtorEq, false_or] at ho'
+        exact h2 _ ho'
+    | typeError k => simp only [hc] at h; exact planLoop_planOK rest _ _ _ _ p h1 h2 h
+    | panic s => simp [hc] at h
+    | unmodelled w => simp [hc] at h
+  | .sort cols dir :: rest, inAgg, hasErr, pre, post, p, h1, h2, h => by
+    simp only [planLoop] at h
+    split at h
+    · refine planLoop_planOK rest _ _ _ _ p h1 (fun o' ho' => ?_) h
+      simp only [List.mem_cons, reduceCtorEq, false_or] at ho'
+      exact h2 _ ho'
+    · cases h
+
+/-- a compiled query only contains row operators with the separator property -/
+theorem compile_planOK (q : Query) (p : Plan) (h : compile q = .ok p) : PlanOK p := by
+  simp only [compile] at h
+  cases hp0 : planLoop false false [] [] (flattenOps (opsDepth q.ops + 1) q.ops) with
+  | ok p0 =>
+    simp only [hp0, Compile.ok.injEq] at h
+    subst h
+    exact planLoop_planOK _ _ _ _ _ p0 (fun _ ho => by cases ho) (fun _ ho => by cases ho) hp0
+  | error k => simp [hp0] at h
+  | panic s => simp [hp0] at h
+  | unmodelled w => simp [hp0] at h
+
+/-- **C11 (reader side of an accepted query).** For every query `Pipeline::new` accepts, every input
+and every behaviour of the external functions, the reader side never reaches a panic site. -/
+theorem C11_compiled_runPre_no_panic (ext : Ext) (q : Query) (pl : Plan) (lines : List String)
+    (h : compile q = .ok pl) : ∀ p, runPre ext pl lines ≠ .panic p :=
+  C11_runPre_no_panic ext pl lines (compile_planOK q pl h).1
+
+/-! ### row operators after an aggregation (`PreAggAdapter`) -/
+
+theorem adaptTable_go_noPanic (ext : Ext) (op : RowOp) (hsep : SepOK op) :
+    ∀ (rs : List Record) (st : OpState) (acc : List Fields), StateOK op st →
+    RunNoPanic (adaptTable.go ext op st rs acc)
+  | [], st, acc, _ => by simp only [adaptTable.go]; exact runNoPanic_ok _
+  | r :: rs, st, acc, hs => by
+    have hnp := step_noPanic ext op st r hs hsep
+    have hst := step_stateOK ext op st r hs
+    simp only [adaptTable.go]
+    generalize stepOp ext op st r = res at hnp hst
+    obtain ⟨st', o⟩ := res
+    cases o with
+    | ok x =>
+      cases x with
+      | none => exact adaptTable_go_noPanic ext op hsep rs st' acc hst
+      | some r' => exact adaptTable_go_noPanic ext op hsep rs st' _ hst
+    | err k => exact adaptTable_go_noPanic ext op hsep rs st' acc hst
+    | panic p => exact absurd rfl (hnp p)
+    | unmodelled w => exact runNoPanic_unmodelled _
+
+/-- a row operator applied to an aggregate table never panics either -/
+theorem C11_adaptTable_no_panic (ext : Ext) (op : RowOp) (t : Table)
+    (hsep : ∀ sep src dst, op = .split sep src dst → sep.toList ≠ []) :
+    ∀ p, adaptTable ext op t ≠ .panic p := by
+  intro p
+  have h := adaptTable_go_noPanic ext op hsep
+    (t.rows.map fun d => ({ data := d, raw := "" } : Record)) op.init [] (init_stateOK op)
+  simp only [adaptTable]
+  generalize adaptTable.go ext op op.init _ [] = res at h
+  cases res with
+  | ok x => simp
+  | panic q => exact absurd rfl (h q)
+  | unmodelled w => simp
+
+/-! ### the hypotheses are satisfiable, and needed -/
+
+example : (RowOp.split "," none none).isStateless = true ∧
+    ∀ sep src dst, RowOp.split "," none none = .split sep src dst → sep.toList ≠ [] := by
+  refine ⟨rfl, ?_⟩
+  intro sep src dst h
+  cases h
+  simp
+
+/-- without the separator hypothesis the model does reach its panic site (the hang of
+`* | split on ""` before repo commit 5855035) -/
+theorem split_empty_sep_panics (ext : Ext) :
+    ¬ NoPanic (applyStateless ext (.split "" none none) { data := [], raw := "a" }) := by
+  intro h
+  refine h "split.rs:58 loop makes no progress (empty separator)" ?_
+  have : Split.split "a".toList "".toList = none :=
+    C07.C07_split_empty_sep_no_progress 'a' [] (by decide) (by decide)
+  simp only [applyStateless, getInput, Outcome.bind_ok, this]
+
+example : StatesOK [RowOp.limit 3, .total (.col "x" []) "t", .whereConst true]
+    [.head 0, .total F64.zero, .stateless] :=
+  ⟨Or.inl ⟨0, rfl⟩, ⟨F64.zero, rfl⟩, trivial, trivial⟩
 
 /-- a row an operator rejects does not influence the others: restatement of C12 -/
 theorem C11_row_isolation (ext : Ext) (ops : List RowOp) (hs : C12.Stateless ops) (r : Record) :
